@@ -5,10 +5,10 @@
 # (final acceptance runs use `git -C /repo apply` / `git -C /repo checkout -- .` instead: tools/seeded_final.sh)
 WT=$1; PID=$2; K=$3; shift 3; EXTRA="$@"
 SD=$WT/_seeded
-OUT=/verif/seeded/${PID}_$K
+OUT=/verif/seeded/${PID}_${OUTK:-$K}
 mkdir -p $OUT
 [ -f $SD/change_$K.diff ] && { cp $SD/change_$K.diff $OUT/patch.diff; cp $SD/demo_$K.py $OUT/demo.py; cp $SD/meta_$K.json $OUT/meta_agent.json; }
-SCR=/tmp/seeded_repo_${PID}_$K
+SCR=/tmp/seeded_repo_${PID}_${OUTK:-$K}
 rm -rf $SCR; mkdir -p $SCR; rsync -a --exclude .git --exclude '*.egg-info' /repo/ $SCR/
 echo "== demo on unchanged tree"; (cd $SCR && PYTHONPATH=$SCR/src timeout 900 /venv/bin/python $OUT/demo.py > $OUT/demo_unchanged.log 2>&1); U=$?; echo "exit $U"
 (cd $SCR && patch -p1 -s < $OUT/patch.diff) || { echo "PATCH DOES NOT APPLY"; rm -rf $SCR; exit 1; }
